@@ -314,7 +314,14 @@ def run(ctx):
                     res = mk(name, hdrs, as_obj)
                     if hasattr(res, "add_header"):
                         res.add_header("X-Late", "late")
-                    holder["before"] = list(res.headers.items())
+                    first = list(res.headers.items())   # e.g. logged
+                    if hasattr(res, "add_header") and len(hdrs) % 2 == 0:
+                        # ... and a header replaced after somebody has
+                        # looked at the collection (same number of fields)
+                        res.headers["X-Late"] = "later"
+                        first = [h for h in first if h[0] != "X-Late"] + \
+                            [("X-Late", "later")]
+                    holder["before"] = first
                     return res
                 cur["v"] = make
                 cur["peekable"] = name != "FileObjResponse(stream)"
